@@ -107,6 +107,9 @@ func c06(c *core.Ctx) {
 		for _, w := range writes {
 			for _, fact := range ssax.FactsAt(w) {
 				for _, side := range []ssa.Value{fact.X, fact.Y} {
+					if syn, isSyn := side.(*ssax.Synth); isSyn && syn.Orig != nil {
+						side = syn.Orig // established in a caller / helper
+					}
 					if call, ok := ssax.Strip(side).(*ssa.Call); ok {
 						if ssax.Callee(call) == maxMsg {
 							hasMsg = true
@@ -118,7 +121,7 @@ func c06(c *core.Ctx) {
 				}
 			}
 		}
-		c.Ob("C06.sendlimit", fname(f)+"·limits checked before Write", pos(c, writes[0]), hasMsg && hasCnt, "Write dominated by a MaxMessageSize comparison: "+boolStr(hasMsg)+"; by a MaxChunkCount comparison: "+boolStr(hasCnt)+" — an over-limit message is put on the wire instead of being refused")
+		c.Ob("C06.sendlimit", sendPathKind(c, f)+"·limits checked before Write", pos(c, writes[0]), hasMsg && hasCnt, "Write dominated by a MaxMessageSize comparison: "+boolStr(hasMsg)+"; by a MaxChunkCount comparison: "+boolStr(hasCnt)+" — an over-limit message is put on the wire instead of being refused")
 	}
 	// recvlimit
 	{
@@ -251,4 +254,46 @@ func sortStrings(s []string) []string {
 		}
 	}
 	return s
+}
+
+// sendPathKind names a chunk-writing function by the exported send API it serves — "request send path" (reached from
+// SendRequest*), "response send path" (reached from SendResponse* / SendMsg*) — so that a finding about the send path
+// keeps its identity when the write loop is moved into, or merged with, a helper.
+func sendPathKind(c *core.Ctx, f *ssa.Function) string {
+	cg := c.P.CallGraph()
+	seen := map[*ssa.Function]bool{}
+	req, resp := false, false
+	var up func(g *ssa.Function, d int)
+	up = func(g *ssa.Function, d int) {
+		if seen[g] || d > 6 {
+			return
+		}
+		seen[g] = true
+		if o := g.Object(); o != nil && o.Exported() && shortOf(g) == "uasc" {
+			n := g.Name()
+			if strings.Contains(n, "Request") || n == "Open" || n == "Renew" || n == "Close" {
+				req = true
+			}
+			if strings.Contains(n, "Response") || strings.Contains(n, "Msg") {
+				resp = true
+			}
+		}
+		if n := cg.Nodes[g]; n != nil {
+			for _, e := range n.In {
+				if e.Caller.Func != nil && shortOf(e.Caller.Func) == "uasc" {
+					up(e.Caller.Func, d+1)
+				}
+			}
+		}
+	}
+	up(f, 0)
+	switch {
+	case req && resp:
+		return "uasc·request and response send path"
+	case req:
+		return "uasc·request send path"
+	case resp:
+		return "uasc·response send path"
+	}
+	return fname(f)
 }
